@@ -905,7 +905,7 @@ func (e *Engine) unop(st *State, fr *Frame, x *ssa.UnOp) Val {
 		e.recvFactsFor(st, x.X, ch, okT)
 		e.neverClosedRecv(st, x.X, okT)
 		e.chanInv(st, fr, x.X, v, false, okT, x.Pos())
-		e.siteEvent(st, fr, "recv", e.describe(x.X), map[string]Val{"$chan": ch, "$val": v, "$ok": boolVal(okT)}, x.Pos())
+		e.siteEvent(st, fr, "recv", e.describe(x.X), map[string]Val{"$chan": ch, "$val": v, "$ok": boolVal(okT), "$blocking": boolVal("true")}, x.Pos())
 		if x.CommaOk {
 			out := Val{T: x.Type(), L: append(append([]string{}, v.L...), okT)}
 			return out
@@ -1381,7 +1381,11 @@ func (e *Engine) execSelect(st *State, fr *Frame, x *ssa.Select, b *ssa.BasicBlo
 					e.recvFactsFor(s2, s.Chan, cases[j].ch, okT)
 					e.neverClosedRecv(s2, s.Chan, okT)
 					e.chanInv(s2, fr, s.Chan, v, false, okT, x.Pos())
-					e.siteEvent(s2, fr, "recv", e.describe(s.Chan), map[string]Val{"$chan": cases[j].ch, "$val": v, "$ok": boolVal(okT)}, x.Pos())
+					blk := "true"
+					if !x.Blocking {
+						blk = "false"
+					}
+					e.siteEvent(s2, fr, "recv", e.describe(s.Chan), map[string]Val{"$chan": cases[j].ch, "$val": v, "$ok": boolVal(okT), "$blocking": boolVal(blk)}, x.Pos())
 				} else {
 					out.L = append(out.L, e.zeroVal(et).L...)
 				}
